@@ -9,6 +9,7 @@ import (
 	"fmt"
 	"hash"
 	"io"
+	"math"
 	"net"
 	"strconv"
 	"strings"
@@ -368,9 +369,18 @@ func readMessage(r io.Reader, header *wire.MessageHeader, msg wire.Message) erro
 		rc = r
 	}
 
-	// Read payload.
-	payload := make([]byte, header.Length)
-	if _, err := io.ReadFull(rc, payload); err != nil {
+	// Read payload. The length is declared by the peer, and not all message types have a maximum
+	// payload length, so don't allocate it up front. Let the buffer grow as data is received.
+	if header.Length > math.MaxInt64 {
+		return errors.Wrap(ErrMessageTooLarge, fmt.Sprintf("%s: %d b", header.CommandString(),
+			header.Length))
+	}
+
+	payload := &bytes.Buffer{}
+	if n, err := io.CopyN(payload, rc, int64(header.Length)); err != nil {
+		if errors.Cause(err) == io.EOF && n > 0 {
+			err = io.ErrUnexpectedEOF
+		}
 		return errors.Wrap(err, "read")
 	}
 
@@ -385,7 +395,7 @@ func readMessage(r io.Reader, header *wire.MessageHeader, msg wire.Message) erro
 	}
 
 	// Unmarshal message
-	if err := msg.BtcDecode(bytes.NewBuffer(payload), wire.ProtocolVersion); err != nil {
+	if err := msg.BtcDecode(payload, wire.ProtocolVersion); err != nil {
 		return errors.Wrap(err, "decode")
 	}
 
